@@ -428,7 +428,8 @@ type coordSess struct {
 	replica int
 	pool    int
 	env     coordEnv
-	issued  map[uint64]bool // ghost: every replica id that was ever visible in the register
+	issued  map[uint64]bool              // ghost: every replica id that was ever visible in the register
+	waiting map[string]map[int]time.Time // the waiting table of the coordinator's check loop (act check)
 }
 
 func healthyEnv(pool int) coordEnv {
@@ -475,9 +476,12 @@ func (ss *coordSess) install(st *coordStubs) {
 	ss.reg.casFail = ss.env.casFail
 	if ss.env.elapsed {
 		pdnode_coord.VerifSetWaitRemoveInterval(0)
+		pdnode_coord.VerifSetWaitMigrateInterval(0)
 	} else {
 		pdnode_coord.VerifSetWaitRemoveInterval(time.Hour * 24)
+		pdnode_coord.VerifSetWaitMigrateInterval(time.Hour * 24)
 	}
+	ss.coord.VerifSetStableNodeNum(int32(ss.pool))
 }
 
 func (ss *coordSess) aliveMap(st *coordStubs) map[string]cluster.NodeInfo {
@@ -531,6 +535,9 @@ func (ss *coordSess) oracle(c *Ctx, act string, prev, nw *cInfo, committed bool)
 	}
 	if len(added) > 0 {
 		c.Note("write/add")
+		if strings.HasPrefix(act, "check") {
+			c.Note("check-loop/write/add")
+		}
 		allReady := true
 		for _, n := range ss.isr(prev) {
 			if !(ss.env.alive[n] && ss.env.ready[n] && ss.env.synced[n]) {
@@ -540,7 +547,7 @@ func (ss *coordSess) oracle(c *Ctx, act string, prev, nw *cInfo, committed bool)
 		// addNamespaceToNode itself has no readiness gate: its callers (handleNamespaceMigrate is separate;
 		// addNodeToNamespaceAndWaitReady = act balance) check IsAllISRFullReady first, so the clause is judged
 		// on the acts that contain the gate
-		gated := strings.HasPrefix(act, "migrate") || strings.HasPrefix(act, "balance")
+		gated := strings.HasPrefix(act, "migrate") || strings.HasPrefix(act, "balance") || strings.HasPrefix(act, "check")
 		if len(prev.rm) > 0 || len(nw.rm) > 0 || (gated && !allReady) {
 			c.Violation("added-without-ready", tag)
 		}
@@ -578,6 +585,9 @@ func (ss *coordSess) oracle(c *Ctx, act string, prev, nw *cInfo, committed bool)
 	}
 	if newRm {
 		c.Note("write/mark-removal")
+		if strings.HasPrefix(act, "check") {
+			c.Note("check-loop/write/mark-removal")
+		}
 		alive := 0
 		for _, n := range prev.nodes {
 			if ss.env.alive[n] {
@@ -590,6 +600,9 @@ func (ss *coordSess) oracle(c *Ctx, act string, prev, nw *cInfo, committed bool)
 	}
 	if len(nw.nodes) < len(prev.nodes) {
 		c.Note("write/finish-removal")
+		if strings.HasPrefix(act, "check") {
+			c.Note("check-loop/write/finish-removal")
+		}
 	}
 	if committed {
 		for _, id := range nw.ids {
@@ -630,7 +643,7 @@ func newCoord(c *Ctx) func(string) string {
 			}
 			reg := &memRegister{ns: kv["ns"], meta: cluster.NamespaceMetaInfo{PartitionNum: 1, Replica: r}, epoch: 1}
 			reg.info = st.toReal(ci)
-			ss = &coordSess{reg: reg, replica: r, pool: pool, env: healthyEnv(pool), issued: map[uint64]bool{}}
+			ss = &coordSess{reg: reg, replica: r, pool: pool, env: healthyEnv(pool), issued: map[uint64]bool{}, waiting: map[string]map[int]time.Time{}}
 			ss.coord = pdnode_coord.VerifNewCoord(reg, kv["alg"])
 			for _, id := range ci.ids {
 				ss.issued[id] = true
@@ -712,6 +725,12 @@ func newCoord(c *Ctx) func(string) string {
 				case "finish":
 					ss.coord.VerifRemoveNamespaceFromRemovings(info)
 					res = "ok"
+				case "check":
+					// ONE pass of the coordinator's own loop (doCheckNamespaces: finish removals, migrate after the grace
+					// time, trim an over-replicated partition); it may write more than once, every write is judged against
+					// the one before it
+					ss.coord.VerifDoCheckNamespaces(ss.waiting)
+					res = "ok"
 				case "balance":
 					// every wait inside rebalanceNamespace selects on monitorChan: it is closed at the first register
 					// write (successful or not), so one act performs at most one write and never sleeps
@@ -728,12 +747,15 @@ func newCoord(c *Ctx) func(string) string {
 			}
 			w := "none"
 			logs := ss.reg.log[logStart:]
-			if len(logs) > 1 {
+			if len(logs) > 1 && f[1] != "check" {
 				c.Violation("more-than-one-write", fmt.Sprintf("%s: %d register writes in one decision", actName, len(logs)))
 			}
 			for _, l := range logs {
 				nw := st.fromReal(&l.info)
 				ss.oracle(c, actName, prev, nw, l.ok)
+				if l.ok && f[1] == "check" {
+					prev = nw
+				}
 				if l.ok {
 					w = "ok:" + nw.String()
 				} else {
@@ -763,7 +785,9 @@ func genCoord(rng *rand.Rand, tier string, emit func(string)) {
 	if tier == "thorough" {
 		sessions = 5000
 	}
-	for s := 0; s < sessions; s++ {
+	checkSessions := sessions / 4
+	for s := 0; s < sessions+checkSessions; s++ {
+		onlyCheck := s >= sessions // sessions driven ONLY through the coordinator's own loop (act check; not modelled in Lean)
 		replica := 1 + rng.Intn(5)
 		pool := 3 + rng.Intn(6)
 		// a valid start layout: distinct nodes, distinct ids ≤ MaxRaftID, at most one removal, ISR quorum
@@ -773,6 +797,9 @@ func genCoord(rng *rand.Rand, tier string, emit func(string)) {
 			k = replica + 1
 		case 1:
 			k = replica/2 + 1 + rng.Intn(replica-replica/2)
+		}
+		if onlyCheck && rng.Intn(2) == 0 {
+			k = replica + 1 // over-replicated: the trimming branch of the loop
 		}
 		if k > pool {
 			k = pool
@@ -792,12 +819,15 @@ func genCoord(rng *rand.Rand, tier string, emit func(string)) {
 			ci.rm[perm[rng.Intn(k)]] = rng.Intn(6) == 0
 		}
 		alg := "v2"
-		if rng.Intn(4) == 0 {
-			alg = "v1"
+		if rng.Intn(4) == 0 || (onlyCheck && rng.Intn(2) == 0) {
+			alg = "v1" // the ring layout ignores the old placement: the loop's trimming branch finds members to drop
 		}
 		emit(fmt.Sprintf("reset replica=%d alg=%s ns=%s pool=%d layout=%s", replica, alg, placeNS[rng.Intn(len(placeNS))], pool, ci))
 		env := healthyEnv(pool)
 		steps := 5 + rng.Intn(56)
+		if onlyCheck {
+			steps = 4 + rng.Intn(12)
+		}
 		for t := 0; t < steps; t++ {
 			if rng.Intn(3) == 0 {
 				switch rng.Intn(10) {
@@ -833,6 +863,8 @@ func genCoord(rng *rand.Rand, tier string, emit func(string)) {
 					fmtSet(env.ready), fmtSet(env.joined), el, cas))
 			}
 			switch x := rng.Intn(20); {
+			case onlyCheck:
+				emit("act check")
 			case x < 8:
 				emit("act migrate")
 			case x < 12:
